@@ -149,4 +149,4 @@ def classify(case, io, mo):
 
 
 def theorem_for(case):
-    return "C01_language (contains (compile P) p = true <-> WT P p), C01_count, C01_rules_useful"
+    return "C01_language (contains P p = wt P (returns (request P)) None 0 p), C01_count, C01_count_members, C01_rules_useful"
